@@ -147,11 +147,25 @@ def build_harness(bins, crate=HARNESS):
     return rc == 0, out
 
 
-def run_harness(bin_name, seed, scale, extra_env=None, crate=HARNESS, timeout=1800):
+def run_harness(bin_name, seed, scale, extra_env=None, crate=HARNESS, timeout=None):
+    if timeout is None: timeout = 600 + 240 * int(scale)
     env = dict(ENV, VERIF_SEED=str(seed), VERIF_SCALE=str(scale))
     if extra_env: env.update(extra_env)
     exe = os.path.join(crate, "target", "debug", bin_name)
-    p = subprocess.run([exe], stdout=subprocess.PIPE, stderr=subprocess.PIPE, env=env, timeout=timeout, cwd=crate)
+    # a harness that does not come back (a handler that blocks the runtime thread for good: a lock taken twice, a blocking
+    # close) is stopped; what it printed until then is still evaluated and the blockage itself is reported
+    pr = subprocess.Popen([exe], stdout=subprocess.PIPE, stderr=subprocess.PIPE, env=env, cwd=crate)
+    try:
+        out, errb = pr.communicate(timeout=timeout)
+        rc = pr.returncode
+    except subprocess.TimeoutExpired:
+        pr.kill()
+        out, errb = pr.communicate()
+        rc = 124
+        errb = (errb or b"") + ("\nharness %s did not finish within %d s: stopped after %d case lines (the runtime thread is blocked?)"
+                                % (bin_name, timeout, out.count(b"\nCASE "))).encode()
+    class _P: pass
+    p = _P(); p.stdout, p.stderr, p.returncode = out, errb, rc
     cases, notes = [], []
     for line in p.stdout.decode("utf-8", "replace").split("\n"):
         if line.startswith("CASE "):
